@@ -2,6 +2,7 @@ mod c01;
 mod c02;
 mod c03;
 mod c04;
+mod c05;
 mod c07;
 mod c09;
 mod c10;
@@ -28,6 +29,7 @@ fn main() {
         "c02" => c02::run(&args),
         "c03" => c03::run(&args),
         "c04" => c04::run(&args),
+        "c05" => c05::run(&args),
         "c07" => c07::run(&args),
         "c09" => c09::run(&args),
         "c10" => c10::run(&args),
